@@ -210,6 +210,16 @@ func normFunc(f string) string {
 	return f
 }
 
+// cutArgs removes the argument list of a traceback line "pkg.(*T).Method(0x…, …)" / "pkg.f(...)".
+func cutArgs(l string) string {
+	for i := 0; i < len(l); i++ {
+		if l[i] == '(' && !(i+1 < len(l) && l[i+1] == '*') {
+			return l[:i]
+		}
+	}
+	return l
+}
+
 func parseRaces(stderr string) [][2]string {
 	var out [][2]string
 	seen := map[string]bool{}
@@ -278,7 +288,7 @@ func runChild(c *lib.Ctx, exe string, race bool, in childIn, id string) (pairs [
 		first := ""
 		for _, l := range strings.Split(se.String(), "\n") {
 			if strings.Contains(l, "Dash-Industry-Forum/livesim2/") && strings.Contains(l, "(") {
-				first = normFunc(strings.TrimSpace(strings.Split(l, "(0x")[0]))
+				first = normFunc(cutArgs(strings.TrimSpace(l)))
 				break
 			}
 		}
